@@ -99,18 +99,18 @@ func c15(c *Ctx) {
 	res := c.Fn(c15Resolve)
 	applied := Ret{1, "1"}
 	c.Guard("R2-resolve", res, applied,
-		"!exists || candidate.ChannelEpoch >= existing.ChannelEpoch",
-		"!exists || candidate.ChannelEpoch > existing.ChannelEpoch || candidate.LeaderEpoch >= existing.LeaderEpoch",
-		"!exists || candidate.ChannelEpoch > existing.ChannelEpoch || candidate.LeaderEpoch > existing.LeaderEpoch || candidate.Leader == existing.Leader",
+		"!exists || candidate.ChannelEpoch >= *.ChannelEpoch",
+		"!exists || candidate.ChannelEpoch > *.ChannelEpoch || candidate.LeaderEpoch >= *.LeaderEpoch",
+		"!exists || candidate.ChannelEpoch > *.ChannelEpoch || candidate.LeaderEpoch > *.LeaderEpoch || candidate.Leader == *.Leader",
 		"!exists || candidate.RouteGeneration == 0 || candidate.RouteGeneration >= existing.RouteGeneration",
 		"!exists || after: "+c15Pkg+"preserveRuntimeMetaState(existing, candidate)",
 		"!exists || after: "+c15Pkg+"bumpRuntimeRoute(existing, candidate, *)",
 	)
 	c.Guard("R2-resolve", res, CallTo{c15Pkg + "bumpRuntimeRoute"}, "after: "+c15Pkg+"preserveRuntimeMetaState(existing, candidate)")
 	c.Guard("R2-resolve", res, Ret{0, "candidate"}, "!exists")
-	c.Guard("R2-resolve", res, Ret{1, "3"}, "candidate.Leader != existing.Leader")
+	c.Guard("R2-resolve", res, Ret{1, "3"}, "candidate.Leader != *.Leader")
 	c.Guard("R2-resolve", res, Ret{1, "2"},
-		"candidate.RouteGeneration < existing.RouteGeneration || candidate.ChannelEpoch < existing.ChannelEpoch || candidate.LeaderEpoch < existing.LeaderEpoch")
+		"candidate.RouteGeneration < existing.RouteGeneration || candidate.ChannelEpoch < *.ChannelEpoch || candidate.LeaderEpoch < *.LeaderEpoch")
 	c.c15RetShapes("R2-resolve", res, "applied⇒candidate|bump(existing,candidate); stale/conflict⇒existing", func(r []string) string {
 		if len(r) != 2 {
 			return "unexpected arity"
@@ -131,12 +131,12 @@ func c15(c *Ctx) {
 	})
 	// the lease of a same-epoch write is clamped up (or already >=) before Applied
 	c.c15Behind("R2-lease", res, applied,
-		"!exists || candidate.ChannelEpoch > existing.ChannelEpoch || candidate.LeaderEpoch > existing.LeaderEpoch || candidate.LeaseUntilMS >= existing.LeaseUntilMS",
-		false, StoreTo{"candidate.LeaseUntilMS", "existing.LeaseUntilMS"})
+		"!exists || candidate.ChannelEpoch > *.ChannelEpoch || candidate.LeaderEpoch > *.LeaderEpoch || candidate.LeaseUntilMS >= *.LeaseUntilMS",
+		false, StoreTo{"candidate.LeaseUntilMS", "*.LeaseUntilMS"})
 	// frame conditions: what the resolver and its helpers may store
 	c.c15FieldStores("R2-frame", res, c15Row,
 		[]string{"candidate", "existing", c15Pkg + "normalizeChannelRuntimeMeta(candidate)", c15Pkg + "normalizeChannelRuntimeMeta(existing)"},
-		map[string][]string{"LeaseUntilMS": {"existing.LeaseUntilMS"}})
+		map[string][]string{"LeaseUntilMS": {"*.LeaseUntilMS"}})
 	norm := c.Fn(c15Pkg + "normalizeChannelRuntimeMeta")
 	c.c15FieldStores("R2-frame", norm, c15Row, []string{"meta"}, map[string][]string{
 		"Replicas": {c15Pkg + "normalizeUint64Set(meta.Replicas)"}, "ISR": {c15Pkg + "normalizeUint64Set(meta.ISR)"},
